@@ -50,6 +50,10 @@ impl Runner {
     }
     fn n_items(&self, ctx: &Ctx, prop: &str) -> usize {
         match prop {
+            "C07" => {
+                let w = self.work.as_ref().unwrap();
+                props::libprops::n_items(w, ctx, prop) + props::c07x::n_items(w, ctx)
+            }
             p if LIB_PROPS.contains(&p) => props::libprops::n_items(self.work.as_ref().unwrap(), ctx, prop),
             "C04" => props::c04::n_items(ctx),
             "C05" => props::c05::n_items(ctx),
@@ -62,6 +66,15 @@ impl Runner {
     }
     fn run_item(&self, ctx: &mut Ctx, prop: &str, i: usize) {
         match prop {
+            "C07" => {
+                let w = self.work.as_ref().unwrap();
+                let n_lib = props::libprops::n_items(w, ctx, prop);
+                if i < n_lib {
+                    props::libprops::run_item(w, ctx, prop, i)
+                } else {
+                    props::c07x::run_item(w, ctx, i - n_lib)
+                }
+            }
             p if LIB_PROPS.contains(&p) => props::libprops::run_item(self.work.as_ref().unwrap(), ctx, prop, i),
             "C04" => props::c04::run_item(ctx, i),
             "C05" => props::c05::run_item(ctx, i),
@@ -148,7 +161,9 @@ fn replay(args: &[String]) -> i32 {
             let case = case.clone();
             move || {
                 let mut ctx = Ctx::new(&prop, Tier::Quick, 0, None);
-                if LIB_PROPS.contains(&prop.as_str()) {
+                if prop == "C07" && case.get("family").is_some() {
+                    props::c07x::replay(&mut ctx, &case);
+                } else if LIB_PROPS.contains(&prop.as_str()) {
                     let ev = libwork::Eval {
                         id: case["id"].as_str().unwrap_or("replay").to_string(),
                         src: case["src"].as_str().unwrap_or("").to_string(),
